@@ -7,6 +7,9 @@ import (
 	"os"
 	"runtime/debug"
 	"runtime/pprof"
+	"strconv"
+	"strings"
+	"time"
 
 	"verif/lib/dbh"
 	"verif/lib/vr"
@@ -117,6 +120,13 @@ func Main(o Oracle) {
 			defer pprof.StopCPUProfile()
 		}
 	}
+	if n, err := strconv.Atoi(os.Getenv("VERIF_CRASHDB_DUMP_AFTER")); err == nil && n > 0 {
+		go func() { // debugging aid for hangs: dump all goroutines after n seconds and exit
+			time.Sleep(time.Duration(n) * time.Second)
+			_ = pprof.Lookup("goroutine").WriteTo(os.Stderr, 1)
+			os.Exit(2)
+		}()
+	}
 	specs := Specs(o, r.Quick())
 	if r.ReplayPath != "" {
 		replay(r, o, all)
@@ -130,10 +140,25 @@ func Main(o Oracle) {
 			if r.Thorough() {
 				e.CrossEvery = 40
 			}
+			if n, err := strconv.Atoi(os.Getenv("VERIF_CRASHDB_CROSS")); err == nil && n > 0 {
+				e.CrossEvery = n
+			}
 			e.Run()
 		}
 	})
 	c := total.Counters
+	for _, v := range total.Violations { // every failing signature (vr prints details for the first few new ones only)
+		fmt.Printf("FAILING-SIGNATURE cases=%d %s\n", v.Count, v.Sig)
+	}
+	if os.Getenv("VERIF_CRASHDB_COUNT") != "" {
+		for k, v := range c {
+			if strings.HasPrefix(k, "histories") {
+				fmt.Printf("COUNT %s = %d\n", k, v)
+			}
+		}
+		fmt.Printf("COUNT crash_points = %d timed_out=%v\n", c["crash_points"], total.TimedOut)
+		os.Exit(0)
+	}
 	r.RequireOutcomes(total.Card("outcomes"), 3)
 	var bounds []string
 	for _, s := range specs {
